@@ -9,7 +9,8 @@ import (
 // HostP is the projection of one packet.Host onto spec/Hosts.tla.
 type HostP struct {
 	IP    string            `json:"ip"`
-	MAC   string            `json:"mac"`
+	MAC   string            `json:"mac"`  // address of the MAC entry the host points to
+	AMAC  string            `json:"amac"` // the host's own Addr.MAC (must equal MAC)
 	On    bool              `json:"on"`
 	Dirty bool              `json:"dirty"`
 	Seen  int               `json:"seen"`
@@ -58,7 +59,7 @@ func names5(d, m, s, l, n packet.NameEntry) map[string]string {
 func ProjectTables(u *Universe, s *packet.Session) ([]HostP, []MacP) {
 	hosts := make([]HostP, 0, len(s.HostTable.Table))
 	for ip, h := range s.HostTable.Table {
-		hp := HostP{IP: u.IPName(ip), MAC: "mac:nil", On: h.Online, Dirty: packet.VerifHostDirty(h), Seen: Stamp(h.LastSeen),
+		hp := HostP{IP: u.IPName(ip), MAC: "mac:nil", AMAC: u.MACName(h.Addr.MAC), On: h.Online, Dirty: packet.VerifHostDirty(h), Seen: Stamp(h.LastSeen),
 			Names: names5(h.DHCP4Name, h.MDNSName, h.SSDPName, h.LLMNRName, h.NBNSName)}
 		if h.MACEntry != nil {
 			hp.MAC = u.MACName(h.MACEntry.MAC)
